@@ -7,7 +7,6 @@
     stsPlane           RV.CtlSts        StatefulSet-like (native / Advanced / unstructured) and Advanced DaemonSet
     bgPlane kind       RV.CtlBlueGreen  blue-green Deployment / CloneSet (+ HPA, ReplicaSets)
     canaryPlane        RV.CtlCanary     canary-style Deployment (stable + canary Deployments, creation expectation)
-    rsPlane                             apps/v1 ReplicaSet handed to the StatefulSet-like control (`ParseWorkload` panics)
 
   What an adapter adds to a plane model is only what that model does not carry because its suite does not need it:
   the status fields `SyncWorkloadInformation` reads (`Obs`), and `EnsureBatchPodsReadyAndLabeled` where the plane model
@@ -345,18 +344,5 @@ def canaryPlane : Plane CanaryW where
     match canaryRes r.2 with
     | .panic => .panic
     | .val c => .val (canaryAfter w r.1, c)
-
-/-! ## an apps/v1 ReplicaSet as workload reference
-
-  `IsSupportedWorkload` knows the group/kind, no arm of `getReleaseController` matches it, so the StatefulSet-like control
-  is built; `GetEmptyWorkloadObject` hands it an `*apps.ReplicaSet`, and once the object has been read `util.ParseWorkload`
-  → `GetReplicas` ends in `panic("unsupported workload type …")`.  World: does the ReplicaSet exist? -/
-
-def rsPlane : Plane Bool where
-  syncInfo := fun br _ ex => if br.deleting then .val (.normal, none) else if ex then .panic else .val (.gone, none)
-  init := fun _ ns ex => if ex then .panic else .val (ex, ns, .err)
-  upgrade := fun _ _ ex => if ex then .panic else .val (ex, .err)
-  ensure := fun _ _ ex => if ex then .panic else .val .err
-  fin := fun _ ex => if ex then .panic else .val (ex, .ok)        -- `client.IgnoreNotFound`
 
 end RV.ExecutorX
